@@ -59,6 +59,19 @@ theorem parsePortionSpecific_specific {t : String} {p : Portion} (h : parsePorti
       · exact ⟨_, newPortionSpecific_specific h⟩
     · cases h
 
+theorem parsePortionGo_specific {t : String} {p : Portion} (h : parsePortionGo t = .ok p) :
+    ∃ r, p = .specific r := by
+  unfold parsePortionGo at h
+  split at h
+  · exact parsePortionSpecific_specific h
+  · split at h
+    · split at h
+      · split at h
+        · cases h
+        · exact ⟨_, newPortionSpecific_specific h⟩
+      · cases h
+    · cases h
+
 theorem parseValue_good {ty : Ty} {data : String} {v : Value} (h : parseValue cfg ty data = .val v) :
     ValGood v := by
   unfold parseValue at h
@@ -88,7 +101,7 @@ theorem parseValue_good {ty : Ty} {data : String} {v : Value} (h : parseValue cf
     split at h
     · rename_i p hp
       cases h
-      obtain ⟨r, rfl⟩ := parsePortionSpecific_specific hp
+      obtain ⟨r, rfl⟩ := parsePortionGo_specific hp
       simp [ValGood]
     · cases h
 
